@@ -18,6 +18,8 @@
      (S6) widths stay below 1024;
      (S7) a temporary keeps its explicitness when re-assigned;
      (S10) IfExp with one implicit side: the implicit side really took the explicit width;
+     (S13) an if-expression with a comparison result (rdt.Bool) on one side is only accepted between two explicit
+          1-bit terms (the code skips every width check in that case);
      (S12) slice bounds are python ints (not Bits values); the k of x:x+k is a literal;
      (S11) an enforcement never narrows an implicit node below its inferred width (this one only concerns
           the annotations left on the nodes, not acceptance of sound programs). *)
@@ -40,13 +42,14 @@ Record ann : Set := {
   amut : bool;         (* the type enforcer rewrites this node's width when it is implicit *)
   astr : option nat;   (* Some name: the data type is that bitstruct *)
   aint : bool;         (* analysis only (used by the extra checks): may evaluate to a python int *)
-  aovf : bool          (* analysis only: unchecked + * << between python ints (value may exceed the width) *)
+  aovf : bool;         (* analysis only: unchecked + * << between python ints (value may exceed the width) *)
+  abool : bool         (* the data type is rdt.Bool (result of a comparison) rather than rdt.Vector(1) *)
 }.
 Record wnode : Set := { nw : Z; nex : bool; nmut : bool }.
 
 Definition node (a : ann) : wnode := {| nw := aw a; nex := aex a; nmut := amut a |}.
 Definition set_w (a : ann) (w : Z) : ann :=
-  {| aw := w; aex := aex a; asig := asig a; acv := acv a; amut := amut a; astr := astr a; aint := aint a; aovf := aovf a |}.
+  {| aw := w; aex := aex a; asig := asig a; acv := acv a; amut := amut a; astr := astr a; aint := aint a; aovf := aovf a; abool := abool a |}.
 
 (* BehavioralRTLIRTypeEnforcer: every reachable implicit Number / FreeVar / LoopVar / TmpVar / IfExp
    node takes the context width; nothing else changes *)
@@ -67,7 +70,7 @@ Definition enforce_ok (chk : nat -> bool) (c : option Z) (r : typed) : bool :=
 Definition shield (l : list wnode) : list wnode := map (fun n => {| nw := nw n; nex := nex n; nmut := false |}) l.
 
 Definition mk (w : Z) (ex sig : bool) (cv : option Z) (mut : bool) (mi : bool) : ann :=
-  {| aw := w; aex := ex; asig := sig; acv := cv; amut := mut; astr := None; aint := mi; aovf := false |}.
+  {| aw := w; aex := ex; asig := sig; acv := cv; amut := mut; astr := None; aint := mi; aovf := false; abool := false |}.
 Definition lit_ann (z : Z) : ann := mk (nbits_of z) false false (Some z) true true.
 Definition is_struct (a : ann) : bool := match astr a with Some _ => true | None => false end.
 
@@ -85,6 +88,7 @@ Definition int_fold (op : binop) (x y : Z) : option Z :=
 
 (* contexts for the two operands of BinOp(max rule) / Compare / IfExp: None = reject *)
 Definition unify (la ra : ann) (ifexp : bool) : option (option Z * option Z) :=
+  if ifexp && (aw la =? aw ra) then Some (None, None) else      (* visit_IfExp unifies only when the widths differ *)
   match aex la, aex ra with
   | true, true => if aw la =? aw ra then Some (None, None) else None
   | true, false => if aw la <? aw ra then None else Some (None, Some (aw la))
@@ -92,8 +96,7 @@ Definition unify (la ra : ann) (ifexp : bool) : option (option Z * option Z) :=
   | false, false =>
       if ifexp then
         (* visit_IfExp enforces the WIDER side to its own width *)
-        if aw la =? aw ra then Some (None, None)
-        else if aw ra <=? aw la then Some (Some (aw la), None) else Some (None, Some (aw ra))
+        if aw ra <=? aw la then Some (Some (aw la), None) else Some (None, Some (aw ra))
       else
         if aw ra <=? aw la then Some (None, Some (aw la)) else Some (Some (aw ra), None)
   end.
@@ -122,7 +125,7 @@ Definition rule_bin (chk : nat -> bool) (op : binop) (la ra : ann) : option (ann
           (* (S3) int - int may go negative: rejected; int + * << int: marked, rejected by the parent unless it is a slice bound / index *)
           if chk 3%nat && mi && (match op with Sub => true | _ => false end) then None else
           Some ({| aw := resw; aex := ex; asig := false; acv := None; amut := false; astr := None; aint := mi;
-                   aovf := mi && (match op with Add | Mul | LShift => true | _ => false end) |}, cl, cr)
+                   aovf := mi && (match op with Add | Mul | LShift => true | _ => false end); abool := false |}, cl, cr)
       end
   end.
 
@@ -131,13 +134,17 @@ Definition rule_cmp (la ra : ann) : option (ann * option Z * option Z) :=
   if is_struct la || is_struct ra then None else
   match unify la ra false with
   | None => None
-  | Some (cl, cr) => Some (mk 1 true false None false (aint la && aint ra), cl, cr)
+  | Some (cl, cr) => Some ({| aw := 1; aex := true; asig := false; acv := None; amut := false; astr := None;
+                               aint := aint la && aint ra; aovf := false; abool := true |}, cl, cr)
   end.
 
 (* visit_IfExp (rc: condition, la: body, ra: orelse) *)
 Definition rule_if (chk : nat -> bool) (rc la ra : ann) : option (ann * option Z * option Z) :=
   if is_struct rc || is_struct la || is_struct ra then None else
-  match unify la ra true with
+  (* "unify body and orelse if both are rdt.Vector": a comparison result (rdt.Bool) on either side skips every check *)
+  let skip := abool la || abool ra in
+  if chk 13%nat && skip && negb (aex la && aex ra && (aw la =? aw ra)) then None else                 (* (S13) *)
+  match (if skip then Some (None, None) else unify la ra true) with
   | None => None
   | Some (cl, cr) =>
       let la' := match cl with Some c => enf_ann c la | None => la end in
@@ -145,7 +152,7 @@ Definition rule_if (chk : nat -> bool) (rc la ra : ann) : option (ann * option Z
       if chk 5%nat && negb (aex la) && negb (aex ra) && (aw la <? aw ra) then None else      (* (S5) *)
       if chk 10%nat && negb (eqb (aex la) (aex ra)) && negb (aw la' =? aw ra') then None else (* (S10) *)
       Some ({| aw := aw la'; aex := aex la || aex ra; asig := asig la; acv := None; amut := true;
-               astr := None; aint := aint la || aint ra; aovf := false |}, cl, cr)
+               astr := None; aint := aint la || aint ra; aovf := false; abool := abool la |}, cl, cr)
   end.
 
 (* _handle_index_extension: None = reject, Some c = accepted, enforce the index to c *)
@@ -159,7 +166,7 @@ Definition index_ext (basew : Z) (i : ann) (inclusive : bool) : option (option Z
 (* typing environment *)
 Record tenv : Type := {
   tsig  : decls;
-  ttmp  : nat -> option (Z * bool * bool);   (* width, explicit, may-be-int *)
+  ttmp  : nat -> option (Z * bool * bool * bool);   (* width, explicit, may-be-int, rdt.Bool *)
   tloop : nat -> option Z
 }.
 Definition upd_t {A} (f : nat -> option A) (k : nat) (v : option A) : nat -> option A :=
@@ -168,7 +175,7 @@ Definition set_ttmp (E : tenv) i v := {| tsig := tsig E; ttmp := upd_t (ttmp E) 
 Definition set_tloop (E : tenv) i v := {| tsig := tsig E; ttmp := ttmp E; tloop := upd_t (tloop E) i v |}.
 
 Definition sig_ann (f : finfo) : ann :=
-  {| aw := fw f; aex := true; asig := true; acv := None; amut := false; astr := fstruct f; aint := false; aovf := false |}.
+  {| aw := fw f; aex := true; asig := true; acv := None; amut := false; astr := fstruct f; aint := false; aovf := false; abool := false |}.
 
 Fixpoint sig_nodes (G : decls) (s : nat) (ps : list (list nat)) : option (list wnode) :=
   match ps with
@@ -261,7 +268,7 @@ Fixpoint tc (e : expr) {struct e} : option typed :=
           if is_struct ra then None else
           if chk 4%nat && aint ra then None else                                  (* (S4) *)
           Some ({| aw := aw ra; aex := aex ra; asig := asig ra; acv := option_map (fun v => - v - 1) (acv ra);
-                   amut := false; astr := None; aint := aint ra; aovf := false |}, flat r)
+                   amut := false; astr := None; aint := aint ra; aovf := false; abool := abool ra |}, flat r)
       | None => None
       end
   | ESlice a lo hi =>
@@ -337,7 +344,7 @@ Fixpoint tc (e : expr) {struct e} : option typed :=
       end
   | ETmp i =>
       match ttmp E i with
-      | Some (w, ex, mi) => Some ({| aw := w; aex := ex; asig := true; acv := None; amut := true; astr := None; aint := mi; aovf := false |}, [])
+      | Some (w, ex, mi, bo) => Some ({| aw := w; aex := ex; asig := true; acv := None; amut := true; astr := None; aint := mi; aovf := false; abool := bo |}, [])
       | None => None
       end
   | ELoop i =>
@@ -381,11 +388,11 @@ Definition tc_assign (chk : nat -> bool) (E : tenv) (l : lhs) (e : expr) : optio
       | LTmp i =>
           if is_struct R then None else
           match ttmp E i with
-          | Some (w, ex, mi) =>
+          | Some (w, ex, mi, bo) =>
               if negb (w =? aw R) then None else
               if chk 7%nat && negb (eqb ex (aex R) && eqb mi (aint R)) then None else             (* (S7) *)
-              Some (set_ttmp E i (aw R, aex R, aint R), {| nw := aw R; nex := ex; nmut := true |} :: flat r)
-          | None => Some (set_ttmp E i (aw R, aex R, aint R), {| nw := aw R; nex := true; nmut := true |} :: flat r)
+              Some (set_ttmp E i (aw R, aex R, aint R, abool R), {| nw := aw R; nex := ex; nmut := true |} :: flat r)
+          | None => Some (set_ttmp E i (aw R, aex R, aint R, abool R), {| nw := aw R; nex := true; nmut := true |} :: flat r)
           end
       | _ =>
           match lhs_expr l with
